@@ -265,9 +265,12 @@ def _ctor_lsp(ctx) -> None:
                     bad_kw = [k for k in kws if k not in params]
                     bound = set(params[:len(c.args)]) | set(kws)
                     missing = [p for p in required[sub] if p not in bound]
-                    ok = not bad_kw and not missing and len(c.args) <= len(params)
+                    base = ctor["Duration"]
+                    pos_mismatch = [f"{i}:{params[i] if i < len(params) else '-'}!={base[i]}" for i in range(len(c.args))
+                                    if i >= len(params) or params[i] != base[i]]
+                    ok = not bad_kw and not missing and not pos_mismatch
                     ctx.ob("CTOR-LSP", f"{sub} inherits Duration.{slot}: self.__class__({', '.join([un(a) for a in c.args] + kws)[:50]})", ok,
-                           f"{sub}.__new__{tuple(params)} cannot take this call (unknown {bad_kw}, missing {missing})" if not ok else "binds",
+                           f"{sub}.__new__{tuple(params)} cannot take this call (unknown {bad_kw}, missing {missing}, positional {pos_mismatch})" if not ok else "binds",
                            dm.loc(c))
     # Interval delegates
     for op in OPS:
